@@ -33,6 +33,9 @@ class Module(object):
         self.relpath = relpath
         self.src = src
         self.tree = ast.parse(src, filename=path)
+        if os.environ.get("SA_CANON", "1") != "0":
+            from .normalize import canonical
+            self.tree = canonical(self.tree)
         self.digest = hashlib.sha256(src.encode("utf-8")).hexdigest()
         self.imports = {}      # local name -> dotted target
         self.classes = {}      # name -> ClassInfo (top level)
